@@ -13,12 +13,12 @@ func init() {
 		Assumptions: []string{
 			"an empty request inside the alignment (length 0, empty site list, empty complement) may be refused or answered with empty sequences: both accepted and counted as ambiguous; RefCoordinates with length 0 likewise",
 			"RefSites may return the addressed columns as an ascending set (its doc comment, DESIGN C04) or in the order given (the statement's \"addressed order\"); a repeated range in a partition definition may be refused or not (no crash); docs/commands/subseq.md says a window longer than the alignment stops at the end while the API refuses it: the command may do either",
-			"pending finding (props/c04/FINDINGS.md, key subseq-reverse-whole-alignment): `goalign subseq -r` with a window covering the whole alignment crashes; such executions are not generated and are counted under excluded_known",
+			"`goalign subseq -r` with a window covering the whole alignment (empty complement; a crash before fix 711de4d) is generated and judged: empty sequences or an error are accepted, a crash is a violation",
 			"the duplicate-name policy of Append (renaming suffix) is judged by C01; here only the appended residues and the untouched rows",
 			"--informative is exercised on upper-case ACGT alignments without gaps, where every reading of 'character' agrees; extract --translate and --gff are not exercised (translation is C05's subject)",
 			"absence of violations is established on the explored cases only; the enumerated sub-space is covered completely",
 		},
-		LevelText: "Generated-input search against a reference model: ~37 000 (quick) to ~5 million (thorough) alignments with windows, site lists, reference coordinates, partitions and concatenations compared with column arithmetic on the generated rows and with the re-assembly relations, ~60 000 (quick) to ~330 000 (thorough) enumerated boundary tuples, and ~1 300 (quick) to ~32 000 (thorough) executions of the commands. Shows absence of violations on what was explored; the enumerated tuples are exhaustive for L <= 8 (10).",
+		LevelText: "Generated-input search against a reference model: ~72 000 (quick) to ~2.9 million (thorough) alignments with windows, site lists, reference coordinates, partitions and concatenations compared with column arithmetic on the generated rows and with the re-assembly relations, ~58 000 (quick) to ~325 000 (thorough) enumerated boundary tuples, and ~2 000 (quick) to ~32 000 (thorough) executions of the commands. Shows absence of violations on what was explored; the enumerated tuples are exhaustive for L <= 8 (10 in thorough).",
 		LevelNote: "trusts the harness's own column arithmetic, its partition text writer and its minimal FASTA reader; corners the documentation leaves open are accepted in every reading and counted",
 		Technique: "property-based testing (rapid): reference model + inverse/re-assembly relations; bounded-exhaustive enumeration of boundary arguments; command-line differential",
 		DesignRef: "DESIGN.md section 5, C04",
